@@ -55,6 +55,12 @@ func genC15(seed uint64, tier string) *world.Scenario {
 	for i := 0; i < n; i++ {
 		ops = append(ops, kernel.Pick(r, "start", "start", "start", "reset", "init"))
 	}
+	if er := kernel.NewRand(seed, "c15.edit"); er.Bool(0.35) {
+		// between two incarnations the user edits the configuration: a pwmMap is added (or replaced);
+		// its image is unlike anything a measured map would produce
+		at := er.Range(1, len(ops)-1)
+		ops = append(ops[:at], append([]string{kernel.Pick(er, "editmap:a", "editmap:b")}, ops[at:]...)...)
+	}
 	if ops[len(ops)-1] != "start" {
 		ops = append(ops, "start")
 	}
@@ -77,6 +83,19 @@ func runC15(t *testing.T, sc *world.Scenario) *check.Result {
 	hr := kernel.NewRand(sc.Seed, "c15.hold")
 	holdMs := 0
 	for step, op := range strings.Split(sc.Notes, ",") {
+		if strings.HasPrefix(op, "editmap:") {
+			// a configuration edit between two incarnations: from now on this pwmMap is configured
+			top := 6 * f.Driver.K
+			if op == "editmap:b" {
+				top = 5 * f.Driver.K
+			}
+			m := map[int]int{0: 0, 128: f.Driver.K, 255: top}
+			sc = sc.Clone()
+			sc.Fans[0].PwmMap = &m
+			f = &sc.Fans[0]
+			res.Probe("configuration-edits")
+			continue
+		}
 		isc := sc.Clone()
 		var args []string
 		switch op {
@@ -141,6 +160,19 @@ func runC15(t *testing.T, sc *world.Scenario) *check.Result {
 			sig := fmt.Sprintf("fan=%s cfgMap=%v cfgLimits=%v", f.Kind, f.PwmMap != nil, f.MinPwm != nil)
 			if f.PwmMap != nil {
 				res.Probe("judged:configured-map")
+				// used as is: every regulating write is a value of the configured map
+				img := map[int]bool{}
+				for _, v := range *f.PwmMap {
+					img[v] = true
+				}
+				for _, v := range c15RegWrites(co) {
+					if !img[v] {
+						res.Violate("C15", "configured-map-used-as-is", "configured-map-used-as-is "+sig, 0, nil,
+							"step %d (start, history %s): a pwmMap with values %v is configured, yet regulation wrote %d", step, sc.Notes, keysOf(img), v)
+						break
+					}
+					res.Probe("regulating-writes-judged-against-configured-map")
+				}
 				if sweep > 0 {
 					res.Violate("C15", "configured-map-no-sweep", "configured-map-no-sweep "+sig, 0, nil, "step %d (start): a pwmMap is configured, yet %d sweep writes were issued before regulation", step, sweep)
 				}
@@ -211,4 +243,24 @@ func c15Count(co *childOut) (sweep, measure int, firstTick time.Duration) {
 		}
 	}
 	return
+}
+
+// c15RegWrites: PWM values written by the control loop (from UpdateFanSpeed).
+func c15RegWrites(co *childOut) []int {
+	var out []int
+	for _, ev := range co.Events {
+		if ev.Flags&kernel.FUpdate == 0 || ev.Err != "" || ev.Fault != "" {
+			continue
+		}
+		switch {
+		case ev.Kind == "write" && !strings.HasSuffix(ev.Site, "_enable"):
+			out = append(out, ev.Val)
+		case ev.Kind == "yield" && ev.Site == "exec.start" && strings.Contains(ev.ID, "_setpwm") && len(ev.Args) > 0:
+			var v int
+			if _, err := fmt.Sscanf(ev.Args[0], "%d", &v); err == nil {
+				out = append(out, v)
+			}
+		}
+	}
+	return out
 }
